@@ -163,6 +163,24 @@ def search(ctx):
         except Exception as ex:
             import traceback
             ctx.violation("C03:raises:%s" % type(ex).__name__, "cross-section check raised %r" % (ex,), dict(kind="raises", tb=traceback.format_exc()[-800:]))
+    # one-sphere clusters at larger size parameters (the multi-sphere solver's solid-angle quadrature and expansion order grow with x)
+    for xl in (12.0, 22.0, 27.0):
+        try:
+            nm, wl = 1.33, 0.66
+            kw = 2 * math.pi / (wl / nm)
+            pol = T.rand_pol(rng)
+            s1 = Sphere(n=1.59, r=xl / kw, center=(0, 0, 0))
+            ctx.tried("one-sphere-cluster-large", (xl,))
+            cs = calc_cross_sections(s1, medium_index=nm, illum_wavelen=wl, illum_polarization=pol, theory=Mie()).values
+            cm = calc_cross_sections(Spheres([s1]), medium_index=nm, illum_wavelen=wl, illum_polarization=pol,
+                                     theory=Multisphere(eps=1e-10, qeps1=1e-9, qeps2=1e-12)).values
+            rel = np.abs(cm - cs) / np.maximum(np.abs(cs), 1e-6 * cs[2])
+            rel[3] = abs(cm[3] - cs[3])
+            if not (rel.max() <= 1e-4):
+                ctx.violation("C03:multisphere-one-sphere", "one-sphere cluster (x = %g) reports %r, single sphere %r" % (xl, cm.tolist(), cs.tolist()),
+                              dict(kind="xsec", x=xl, pol=list(pol)))
+        except Exception as ex:
+            ctx.violation("C03:raises:%s" % type(ex).__name__, "one-sphere cluster check raised %r" % (ex,), dict(kind="raises"))
     ctx.sample(dict(kind="search", oracles=["Cext = Csca + Cabs", "Cabs >= 0, = 0 for real n", "Csca > 0, |g| <= 1", "optical theorem via calc_scat_matrix(theta=0)",
                                             "Csca and g vs Gauss-Legendre integral of |S|^2", "Rayleigh x^4", "Multisphere(1 sphere) = Mie"]))
 
